@@ -63,13 +63,8 @@ func TestC08Transparency(t *testing.T) {
 		defer cl.Stop()
 		c.Header["proxy_auth"] = withAuth
 		kind := c.OneOf("kind", "sdk-http", "agent-http")
-		up, err := ConnectUpstream(context.Background(), cl.Nodes[0], "u0", "e1", kind, UpstreamOpts{})
-		if err != nil {
-			c.Harnessf("connect: %v", err)
-		}
-		defer up.Disconnect()
 		var want c08Resp
-		up.Handler = func(u *Up, w http.ResponseWriter, r *http.Request, rec *Recorded) {
+		handler := func(u *Up, w http.ResponseWriter, r *http.Request, rec *Recorded) {
 			for k, vs := range want.header {
 				for _, v := range vs {
 					w.Header().Add(k, v)
@@ -78,15 +73,77 @@ func TestC08Transparency(t *testing.T) {
 			w.WriteHeader(want.status)
 			_, _ = w.Write(want.body)
 		}
-		ok := Eventually(Deadline(), func() bool {
+		// 1-3 sibling upstreams of the endpoint; siblings come and go between requests
+		var ups []*Up
+		connect := func() {
+			u, err := ConnectUpstream(context.Background(), cl.Nodes[0], fmt.Sprintf("u%d", len(ups)), "e1", kind, UpstreamOpts{})
+			if err != nil {
+				c.Harnessf("connect: %v", err)
+			}
+			u.Handler = handler
+			ups = append(ups, u)
+		}
+		defer func() {
+			for _, u := range ups {
+				if u.DisconnectEnd.IsZero() {
+					u.Disconnect()
+				}
+			}
+		}()
+		for i, k := 0, c.Int("siblings", 1, 3); i < k; i++ {
+			connect()
+		}
+		openCount := func() int {
+			k := 0
+			for _, u := range ups {
+				if u.DisconnectEnd.IsZero() {
+					k++
+				}
+			}
+			return k
+		}
+		propagated := func() bool {
+			want := openCount()
+			if cl.Nodes[0].Srv.ClusterState().LocalEndpointListeners("e1") != want {
+				return false
+			}
 			n, ok := cl.Nodes[1].Srv.ClusterState().Node("n0")
-			return ok && n.Endpoints["e1"] == 1
-		})
-		if !ok {
+			return ok && n.Status == "active" && n.Endpoints["e1"] == want
+		}
+		if !Eventually(Deadline(), propagated) {
 			c.Fatalf("C08: endpoint did not propagate to the second node")
+		}
+		seenTotal := func() int {
+			k := 0
+			for _, u := range ups {
+				u.mu.Lock()
+				k += len(u.Seen)
+				u.mu.Unlock()
+			}
+			return k
 		}
 		c.Header["upstream_kind"] = kind
 		for q, nq := 0, c.Int("requests", 1, 6); q < nq; q++ {
+			if q > 0 && c.Chance("siblingChange", 1, 3) {
+				if openCount() > 1 && c.Bool("siblingLeaves") {
+					var open []*Up
+					for _, u := range ups {
+						if u.DisconnectEnd.IsZero() {
+							open = append(open, u)
+						}
+					}
+					u := open[c.Pick("leaver", len(open))]
+					c.Stepf("sibling %s disconnects", u.ID)
+					u.Disconnect()
+				} else if openCount() < 3 {
+					c.Stepf("a sibling connects")
+					connect()
+				}
+				if !Eventually(Deadline(), propagated) {
+					c.Fatalf("C08: registration change did not settle")
+				}
+				c.Class("sibling-change-between-requests")
+			}
 			entry := cl.Nodes[c.Pick("entry", 2)]
 			method := c.OneOf("method", "GET", "HEAD", "POST", "PUT", "PATCH", "DELETE", "OPTIONS")
 			path := ""
@@ -192,9 +249,9 @@ func TestC08Transparency(t *testing.T) {
 			if forwardedPath && (escaped || bodyN >= 65536 || respN >= 65536) {
 				c.NonTrivial()
 			}
-			before := len(up.Seen)
+			before := seenTotal()
 			res := Do(req)
-			if res.Err == nil && res.Status == 502 && len(up.Seen) == before {
+			if res.Err == nil && res.Status == 502 && seenTotal() == before {
 				// a starved machine can make the entry node suspect its peer for a moment:
 				// confirm before reporting (retry once after the routing table is whole again)
 				c.Class("timing-retry")
@@ -214,13 +271,13 @@ func TestC08Transparency(t *testing.T) {
 			if res.Err != nil {
 				c.Fatalf("C08: %s %s via %s failed: %v", method, uri, entry.ID, res.Err)
 			}
-			up.mu.Lock()
-			nSeen := len(up.Seen)
+			nSeen := seenTotal()
 			var rec *Recorded
-			if nSeen > before {
-				rec = up.Seen[nSeen-1]
+			for _, u := range ups {
+				if u.ID == res.Upstream {
+					rec = u.LastSeen()
+				}
 			}
-			up.mu.Unlock()
 			if rec == nil || nSeen != before+1 {
 				c.Fatalf("C08: the upstream saw %d requests for one client request (status at client %d)", nSeen-before, res.Status)
 			}
